@@ -1,7 +1,7 @@
 #!/bin/bash
 # usage: tools/try_patch.sh <patch.diff> <ID> [tier]   — apply a patch to /repo, run one check, always revert.
 set -u
-P="$1"; ID="$2"; TIER="${3:-quick}"
+P="$(realpath "$1")"; ID="$2"; TIER="${3:-quick}"
 cd /repo || exit 2
 if [ -n "$(git status --porcelain --untracked-files=no)" ]; then echo "/repo has uncommitted changes; refusing"; exit 2; fi
 EV=/verif/evidence/$ID.json; [ -f "$EV" ] && cp "$EV" /tmp/try_patch.$$.ev
